@@ -18,7 +18,8 @@ The state of the translated methods is the pair (U, M): U = self.units_of_work a
 connection -> unit of work, M = self.session_connection_map as session -> connection.  Objects are identified by
 natural numbers; `connection.closed` and `connection.connection` (the DB-API connection) are the environment
 functions `closed` and `dbapi` of Model/Manager.v.  Calls that only touch the discarded UnitOfWork object
-(uow.reset(...)) are skipped; session.in_nested_transaction() is the boolean parameter `nested`.
+(uow.reset(...)) and calls of self.forget_savepoints (checked not to mention the two maps) are skipped;
+session.in_nested_transaction() is the boolean parameter `nested`.
 """
 import ast
 import os
@@ -41,6 +42,9 @@ def is_self_attr(node, name):
 
 
 UMAP, SMAP = 'units_of_work', 'session_connection_map'
+# methods of the manager that the translated methods may call and that are skipped: translate_manager checks that
+# their bodies mention neither of the two maps
+SKIPPED_SELF_CALLS = ('forget_savepoints',)
 
 
 class Fn(object):
@@ -114,6 +118,10 @@ class Fn(object):
                 and s.value.func.attr == 'reset' and isinstance(s.value.func.value, ast.Name) \
                 and self.locals.get(s.value.func.value.id, ('', ''))[0] == 'uow':
             return self.block(rest)                                   # uow.reset(...): touches the discarded object only
+        if isinstance(s, ast.Expr) and isinstance(s.value, ast.Call) and isinstance(s.value.func, ast.Attribute) \
+                and isinstance(s.value.func.value, ast.Name) and s.value.func.value.id == 'self' \
+                and s.value.func.attr in SKIPPED_SELF_CALLS:
+            return self.block(rest)                                   # bookkeeping outside the two maps (checked below)
         if isinstance(s, ast.Assign) and len(s.targets) == 1:
             t, v = s.targets[0], s.value
             # conn = session.connection()
@@ -233,6 +241,14 @@ def params_of(f):
 def translate_manager(src):
     tree = ast.parse(src)
     out = []
+    for name in SKIPPED_SELF_CALLS:
+        try:
+            f = find_method(tree, 'VersioningManager', name)
+        except Unsupported:
+            continue
+        for n in ast.walk(f):
+            if isinstance(n, ast.Attribute) and n.attr in (UMAP, SMAP):
+                raise Unsupported('%s touches %s' % (name, n.attr))
     specs = [
         # method, expected parameters, gallina parameters, locals
         ('unit_of_work', ['self', 'session'], '(U : list (nat * uow)) (M : list (nat * nat)) (session conn_of_session : nat)',
